@@ -488,6 +488,16 @@ Proof. vm_compute. reflexivity. Qed.""")
     out.append("Definition gen_create_callers : list (N * bool) := %s." % lst(["(%d, %s)" % (k, "true" if l else "false") for _, k, l in create_callers]))
     out.append("Lemma gen_create_once_ok : create_calls_ok gen_create_callers = true.")
     out.append("Proof. vm_compute. reflexivity. Qed.")
+    out.append("")
+    out.append("(* a creating call whose `save_index(..)?` fails: every re-extracted creating skeleton cut at its index insert must still be")
+    out.append("   a well-formed program - the seq-0 frame is logged, the sidecar line written, nothing has touched the counter of the new")
+    out.append("   thread, the guard is dropped *)")
+    out.append("Definition gen_failed_save_ok_b : bool :=")
+    out.append("  wf_prog (fail_save gen_create) && wf_prog (MTarget 0 :: MRead :: fail_save gen_branch)")
+    out.append("  && wf_prog (MTarget 0 :: MRead :: fail_save gen_handoff)")
+    out.append("  && same_shape (fail_save gen_create) (create_save_failed []).")
+    out.append("Lemma gen_failed_save_ok : gen_failed_save_ok_b = true.")
+    out.append("Proof. vm_compute. reflexivity. Qed.")
     os.makedirs(a.out, exist_ok=True)
     open(os.path.join(a.out, "AppendOps.v"), "w").write("\n".join(out) + "\n")
     for name, kind, st in locked:
